@@ -234,7 +234,8 @@ def legalise(rng, case):
     return case
 
 
-POST_KINDS = ["filter_median", "filter_bilateral", "refinement_vfit", "refinement_vfit", "validation", "validation_mc_cnn", "validation_sgm"]
+POST_KINDS = ["filter_median", "filter_bilateral", "filter_intervals", "refinement_vfit", "refinement_vfit", "validation",
+              "validation_mc_cnn", "validation_sgm"]
 
 
 def gen_pipeline_case(rng):
@@ -255,6 +256,7 @@ def gen_pipeline_case(rng):
         k = rng.choice(["refinement_vfit", "validation_mc_cnn", "validation_sgm", "validation", "filter_median"])
         case["post"] = [k, k] + case["post"][:2]
     case["threshold"] = rng.choice([0, 0, 1, 1, 2])
+    case["amb_threshold"] = rng.choice([0.6, 0.9, 1.0])
     return legalise(rng, case)
 
 
@@ -286,8 +288,11 @@ def build_images(case):
 def pipeline_cfg(case):
     pipe = {
         "matching_cost": {"matching_cost_method": case["measure"], "window_size": case["window"], "subpix": case["subpix"]},
-        "disparity": {"disparity_method": "wta", "invalid_disparity": case["invalid_disparity"]},
     }
+    if "filter_intervals" in case.get("post", []):  # median_for_intervals needs the interval bounds and the ambiguity
+        pipe["cost_volume_confidence"] = {"confidence_method": "ambiguity", "eta_max": 0.7, "eta_step": 0.01}
+        pipe["cost_volume_confidence.int"] = {"confidence_method": "interval_bounds"}
+    pipe["disparity"] = {"disparity_method": "wta", "invalid_disparity": case["invalid_disparity"]}
     counts = {}
     has_validation = False
     for k in case.get("post", []):
@@ -299,6 +304,9 @@ def pipeline_cfg(case):
             pipe[name] = {"filter_method": "median", "filter_size": 3}
         elif k == "filter_bilateral":
             pipe[name] = {"filter_method": "bilateral", "sigma_color": 2.0, "sigma_space": 6.0}
+        elif k == "filter_intervals":
+            pipe[name] = {"filter_method": "median_for_intervals", "interval_indicator": "int", "regularization": True,
+                          "ambiguity_threshold": case.get("amb_threshold", 0.9), "ambiguity_kernel_size": 3}
         elif k.startswith("refinement"):
             pipe[name] = {"refinement_method": k.split("_", 1)[1]}
         else:
@@ -366,6 +374,17 @@ def first_diff(a, b):
     return {"at": list(i), "impl": a[i].item(), "model": b[i].item(), "n": int(len(idx))}
 
 
+def fail_limited(report, clause, trigger, case, impl, detail, per_pair=3):
+    """`core.Report` keeps at most 200 failures: report at most `per_pair` of each (clause, trigger) so that a flood of
+    occurrences of one situation can never push a different one out of the report"""
+    counts = report.__dict__.setdefault("_c04_counts", {})
+    n = counts.get((clause, trigger), 0)
+    counts[(clause, trigger)] = n + 1
+    report.count(f"spec_failure:{clause}:{trigger}")
+    if n < per_pair:
+        report.fail(clause, trigger, case, impl, detail)
+
+
 def pre_trigger(clause, payload, r, c):
     """a stable tag naming the situation of a failing pixel (input only)"""
     off, rows, cols = payload["off"], payload["rows"], payload["cols"]
@@ -396,7 +415,7 @@ def check_criteria_side(ctx, report, case, side, stage1, cvsnap, dispsnap, label
     if dispsnap is not None:
         d = first_diff(dispsnap["mask"], cvsnap["mask"])
         if d:
-            report.fail("later_steps_own_bits", "disparity_step_changes_mask", rc, d, "the disparity step must copy the mask")
+            fail_limited(report, "later_steps_own_bits", "disparity_step_changes_mask", rc, d, "the disparity step must copy the mask")
         disp_enc = [[core.enc(float(v)) for v in row] for row in dispsnap["disp"]]
         is_max = cvsnap["type_measure"] == "max"
         md = ctx.lean.call(
@@ -411,7 +430,8 @@ def check_criteria_side(ctx, report, case, side, stage1, cvsnap, dispsnap, label
     fails = ctx.lean.call("C04.spec_pre", mask=grid(cvsnap["mask"]), nan_all=[[bool(v) for v in row] for row in nan_all],
                           disp=disp_enc, invalid_disp=inv, **payload)
     for cl, r, c, f in fails:
-        report.fail(cl, pre_trigger(cl, payload, r, c), rc, {"pixel": [r, c], "flag": f, "side": side}, f"clause {cl} false at pixel ({r},{c}) flag={f}")
+        fail_limited(report, cl, pre_trigger(cl, payload, r, c), rc, {"pixel": [r, c], "flag": f, "side": side},
+                     f"clause {cl} false at pixel ({r},{c}) flag={f}")
     # ---- bookkeeping
     m = cvsnap["mask"]
     off = payload["off"]
@@ -482,8 +502,10 @@ def check_step(ctx, report, ops, case, side, kind, off, before, after, history, 
         rep = repeat_trigger(history)
         for cl, r, c, f, a in res["failing"]:
             trig = rep if rep else f"single_{kind}"
-            report.fail(cl, trig, rc, {"pixel": [r, c], "before": f, "after": a, "side": side},
-                        f"{kind}: flag {f} -> {a} at ({r},{c}) violates {cl}")
+            if cl == "border_bit0_only" and "filter_intervals" in history:
+                trig = "border_regularized"
+            fail_limited(report, cl, trig, rc, {"pixel": [r, c], "before": f, "after": a, "side": side},
+                         f"{kind}: flag {f} -> {a} at ({r},{c}) violates {cl}")
     changed = int((np.asarray(before) != np.asarray(after)).sum())
     if changed:
         report.hit(f"later_steps_own_bits:{kind}", changed)
@@ -512,7 +534,10 @@ def run_pipeline_case(ctx, report, ops, case, label):
     prev = dict(steps)["disparity"]
     hist = {"left": [], "right": []}
     cc_iter = iter(rec)
-    for name, snap in steps[2:]:
+    i_disp = [n for n, _ in steps].index("disparity")
+    for name, snap in steps[:i_disp]:  # the steps before the disparity step leave the cost-volume mask alone
+        pass
+    for name, snap in steps[i_disp + 1 :]:
         kind0 = name.split(".")[0]
         cfgk = out["cfg"]["pipeline"][name]
         for side in ("left", "right"):
@@ -523,8 +548,9 @@ def run_pipeline_case(ctx, report, ops, case, label):
                 hist[side].append("refinement")
                 check_step(ctx, report, ops, case, side, "refinement", off, before, after, hist[side], label)
             elif kind0 == "filter":
-                hist[side].append("filter")
-                check_step(ctx, report, ops, case, side, "filter", off, before, after, hist[side], label)
+                k = "filter_intervals" if cfgk["filter_method"] == "median_for_intervals" else "filter"
+                hist[side].append(k)
+                check_step(ctx, report, ops, case, side, k, off, before, after, hist[side], label)
             elif kind0 == "validation":
                 mid = next(cc_iter)
                 hist[side].append("cross_checking")
@@ -605,12 +631,19 @@ def gen_kernel_case(rng):
     k = rng.choice(["mc_cnn", "sgm", "cross_checking", "refinement"])
     rows, cols = rng.randrange(1, 6), rng.randrange(1, 8)
     reachable = rng.random() < 0.6
+    off = rng.choice([0, 0, 1])
+    flags = gen_flag_grid(rng, rows, cols, reachable, k)
+    if reachable and off:  # a reachable mask has exactly bit 0 on the border
+        for r in range(rows):
+            for c in range(cols):
+                if r < off or r + off >= rows or c < off or c + off >= cols:
+                    flags[r][c] = 1
     return {
         "kind": "kernel",
         "kernel": k,
-        "off": rng.choice([0, 0, 1]),
+        "off": off,
         "reachable": reachable,
-        "flags": gen_flag_grid(rng, rows, cols, reachable, k),
+        "flags": flags,
         "seed": rng.randrange(1 << 30),
         "threshold": rng.choice([0, 1]),
     }
@@ -694,7 +727,7 @@ def directed_cases():
                         "measure": "sad", "mask_left": ml, "mask_right": mr, "grids": None, "invalid_disparity": -9999,
                         "col0": 0, "codes": [0, 1, [2]], "validation": True, "im_seed": 7,
                     }
-    kinds = ["filter_median", "refinement_vfit", "validation", "validation_mc_cnn", "validation_sgm"]
+    kinds = ["filter_median", "filter_intervals", "refinement_vfit", "validation", "validation_mc_cnn", "validation_sgm"]
     for n in (1, 2, 3):
         for post in itertools.product(kinds, repeat=n):
             for seed in (3, 11):
